@@ -115,8 +115,11 @@ type Net struct {
 	Listeners []*Listener
 	// NoOutgoingLoop disables delivery of the process's own probes to capture handles
 	NoOutgoingLoop bool
-	Injected       int // number of faults that fired
-	InjectedAt     []Call
+	// DirectIP: the capture source hands over IP packets directly (as the BPF device of other platforms does) instead of
+	// reading an Ethernet frame into the buffer and stripping its header: a read can then fill the whole buffer
+	DirectIP   bool
+	Injected   int // number of faults that fired
+	InjectedAt []Call
 }
 
 func New(script Script) *Net {
@@ -476,6 +479,9 @@ func (s *Source) Read(buf []byte) (int, error) {
 			n.Order = append(n.Order, OrderEv{"read-dest", s.ID, m.Flow})
 		}
 		s.qmeta = s.qmeta[1:]
+	}
+	if n.DirectIP && len(f) > 14 {
+		return copy(buf, f[14:]), nil
 	}
 	// the real source reads the frame into buf (truncating), then strips the Ethernet header
 	if len(f) > len(buf) {
